@@ -249,6 +249,7 @@ type Engine struct {
 	stopFlag   atomic.Bool
 	pathCount  atomic.Int64
 	start      time.Time
+	confirmErrors int
 	solverTime map[string]time.Duration
 	solverQueries map[string]int
 	solverErrors int
@@ -626,11 +627,18 @@ func (e *Engine) worker(id int, wg *sync.WaitGroup, errs chan<- error) {
 				e.fnCount[fn.String()] += n
 			}
 		}
-		for _, s := range []*Solver{w.sol, w.sol2, w.sol3} {
+		for i, s := range []*Solver{w.sol, w.sol2, w.sol3} {
 			if s != nil {
 				e.solverTime[s.name] += s.Time
 				e.solverQueries[s.name] += s.Queries
-				e.solverErrors += s.Errors
+				if i == 0 {
+					e.solverErrors += s.Errors
+				} else {
+					// an error line or a dead process of a *confirming* solver
+					// leaves queries unconfirmed (each was retried on a fresh
+					// process, see confirm); it does not make the run inconclusive
+					e.confirmErrors += s.Errors
+				}
 			}
 		}
 		e.mu.Unlock()
